@@ -42,26 +42,43 @@ func vhBatch(rows []vhRichRow, stored []*vRich, B int) (objs []Object, reject bo
 			members = append(members, members[m-1])
 		}
 	}
-	// conflicts with stored objects (state at call time) and inside the batch
+	// conflicts with stored objects (state at call time) and inside the batch.
+	// Inside the batch an object (identity = its uuid, or the pointer for a new
+	// object) has one current value, the one of its latest occurrence: the
+	// batch is judged as its members applied in order to an empty index.
+	ident := make([]string, len(members))
+	for i, mi := range members {
+		switch {
+		case mi == nil:
+		case mi.UUID() != "":
+			ident[i] = mi.UUID()
+		default:
+			ident[i] = "new#" + string(rune('0'+i))
+			for j := 0; j < i; j++ {
+				if members[j] == mi {
+					ident[i] = ident[j]
+				}
+			}
+		}
+	}
 	for i, mi := range members {
 		if mi == nil {
 			continue
 		}
 		for r := range rows {
-			other := mi.UUID() != rows[r].uuid
-			if other {
+			if mi.UUID() != rows[r].uuid {
 				reject = vOr(reject, mi.K == rows[r].o.K)
 			}
 		}
-		for j := 0; j < i; j++ {
+		// latest earlier occurrence of every other identity
+		seen := map[string]bool{}
+		for j := i - 1; j >= 0; j-- {
 			mj := members[j]
-			if mj == nil || mj == mi {
+			if mj == nil || ident[j] == ident[i] || seen[ident[j]] {
 				continue
 			}
-			sameObj := mi.UUID() != "" && mi.UUID() == mj.UUID()
-			if !sameObj {
-				reject = vOr(reject, mi.K == mj.K)
-			}
+			seen[ident[j]] = true
+			reject = vOr(reject, mi.K == mj.K)
 		}
 	}
 	return
